@@ -116,12 +116,140 @@ def off_of(x):
     return None if o is None else str(us_of(o))
 
 
+
+# ----------------------------------------------------------------------------------------------
+# data class declarations: the short form {"data": [[name, T], ...]} (plain required fields) and the rich form
+# {"data": {"id", "opts": {ci, gen, max_depth, dfs, mode}, "fields": [{att, alias, alias_from, ci, role, default,
+# expr, mode, ty}, ...]}}.  A self-referencing class is written unrolled: nested occurrences carry the same "id",
+# {"cut": id} stands for the class itself where the unrolling stops (no instance is that deep).
+# ----------------------------------------------------------------------------------------------
+
+def camel(att: str) -> str:
+    """AliasGenerator.camel on a snake_case attribute name (utils/style.py:108-171)"""
+    if "_" in att:
+        val = "".join(w.capitalize() for w in att.split("_"))
+    elif att.islower():
+        val = att.capitalize()
+    else:
+        val = att
+    return val[0].lower() + val[1:] if val else val
+
+
+def pascal(att: str) -> str:
+    if "_" in att:
+        return "".join(w.capitalize() for w in att.split("_"))
+    return att.capitalize() if att.islower() else att
+
+
+GENERATORS = {"camel": camel, "pascal": pascal}
+
+
+def is_rich(t) -> bool:
+    return isinstance(t["data"], dict)
+
+
+def views(t):
+    """per field of a data type: what the parser derives from the declaration (field.py:1338-1356, 464-476, 555-559)"""
+    d = t["data"]
+    if not isinstance(d, dict):
+        return [{"att": uncps(n), "name": uncps(n), "keys": [uncps(n)], "ci": False, "kind": ["input", True, None],
+                 "role": "plain", "ty": ft, "emit": True} for n, ft in d]
+    o = d.get("opts", {})
+    out = []
+    for f in d["fields"]:
+        att = f["att"]
+        name = f.get("alias") or (GENERATORS[o["gen"]](att) if o.get("gen") else att)
+        keys = [name]
+        for a in [att] + list(f.get("alias_from") or []):
+            if a not in keys:
+                keys.append(a)
+        ci = bool(f["ci"]) if f.get("ci") is not None else bool(o.get("ci"))
+        role = f.get("role", "plain")
+        # a field whose mode does not contain the class's mode takes no input and gives no output
+        disabled = bool(o.get("mode")) and bool(f.get("mode")) and o["mode"] not in f["mode"]
+        dflt = f.get("default")
+        lit = dflt if (dflt is not None and next(iter(dflt)) in ("none", "bool", "int", "str")) else None
+        if disabled or role == "nooutput":
+            kind, emit = ["nooutput"], False
+        elif role == "noinput":
+            kind, emit = ["noinput", dflt], True
+        elif role == "prop":
+            kind, emit = ["prop", f["expr"]], True
+        elif role == "optional":
+            kind, emit = ["input", False, None], True
+        elif role == "default":
+            kind, emit = (["input", False, lit] if lit is not None else ["input", True, None]), True
+        else:
+            kind, emit = ["input", True, None], True
+        out.append({"att": att, "name": name, "keys": keys, "ci": ci, "kind": kind, "role": "nooutput" if disabled else role,
+                    "ty": f["ty"], "emit": emit, "raw": f})
+    # property expressions name their dependencies by attribute; the model wants output names
+    names = {v["att"]: v["name"] for v in out}
+    for v in out:
+        if v["kind"][0] == "prop":
+            v["kind"] = ["prop", [v["kind"][1][0], [cps(names[a]) for a in v["kind"][1][1]]]]
+    return out
+
+
+def field_types(t):
+    return {json.dumps(cps(v["name"])): v["ty"] for v in views(t)}
+
+
+def class_opts(t):
+    d = t["data"]
+    if not isinstance(d, dict):
+        return {"maxDepth": None, "dataFirst": False}
+    o = d.get("opts", {})
+    vs = views(t)
+    # Options.data_first_search defaults to False (options.py:89), so the field-first search runs unless asked otherwise
+    dfs = o.get("dfs")
+    return {"maxDepth": o.get("max_depth"), "dataFirst": bool(dfs)}
+
+
+def model_type(t):
+    """the declaration as the Lean driver reads it"""
+    if isinstance(t, str):
+        return t
+    (tag, e), = t.items()
+    if tag == "enum":
+        return t
+    if tag in ("list", "set", "tuplevar", "optional"):
+        return {tag: model_type(e)}
+    if tag == "tuple":
+        return {"tuple": [model_type(x) for x in e]}
+    if tag == "dict":
+        return {"dict": [e[0], model_type(e[1])]}
+    if tag == "cut":
+        return {"cut": None}
+    if tag == "data":
+        if not is_rich(t):
+            return {"data": [[n, model_type(ft)] for n, ft in e]}
+        return {"data": dict(class_opts(t), fields=[
+            {"name": cps(v["name"]), "keys": [cps(k) for k in v["keys"]], "ci": v["ci"], "kind": v["kind"],
+             "ty": model_type(v["ty"])} for v in views(t)])}
+    raise ValueError(tag)
+
+
+def eval_expr(expr, items_by_att):
+    """the value of an output property: ["sum", [atts]] over ints, ["concat", [atts]] over strs"""
+    kind, deps = expr
+    vals = [items_by_att.get(a) for a in deps]
+    if any(v is None for v in vals):
+        return None
+    if kind == "sum":
+        return {"int": str(sum(int(v["int"]) for v in vals))}
+    return {"str": [c for v in vals for c in v["str"]]}
+
+
 class World:
     """the real classes behind the descriptors of one case (built inside the worker)"""
+
+    serial = 0
 
     def __init__(self):
         self.n = 0
         self.cache = {}
+        self.names = {}
 
     def enum(self, e):
         from enum import Enum
@@ -139,6 +267,8 @@ class World:
 
     def data(self, fields):
         from utype import Schema
+        if isinstance(fields, dict):
+            return self.rich(fields)
         k = "data:" + json.dumps(fields, sort_keys=True)
         if k not in self.cache:
             self.n += 1
@@ -146,7 +276,82 @@ class World:
             self.cache[k] = type(f"S{self.n}", (Schema,), {"__annotations__": ann, "__module__": __name__})
         return self.cache[k]
 
-    def ty(self, t):
+    def rich(self, d):
+        """a Schema subclass with aliases, case-insensitivity, options, modes, defaults, output properties;
+        every unrolled occurrence of a self-referencing class (same id) is the one real class"""
+        import sys as _sys
+        from utype import Schema, Field, Options
+        from utype.utils.style import AliasGenerator
+        k = "rich:" + d["id"]
+        if k in self.cache:
+            return self.cache[k]
+        World.serial += 1
+        cname = f"K{World.serial}"
+        self.names[d["id"]] = cname
+        o = d.get("opts", {})
+        okw = {}
+        if o.get("ci"):
+            okw["case_insensitive"] = True
+        if o.get("gen"):
+            okw["alias_generator"] = getattr(AliasGenerator, o["gen"])
+        if o.get("max_depth"):
+            okw["max_depth"] = o["max_depth"]
+        if o.get("dfs") is not None:
+            okw["data_first_search"] = o["dfs"]
+        if o.get("mode"):
+            okw["mode"] = o["mode"]
+        ns = {"__module__": __name__, "__annotations__": {}}
+        if okw:
+            ns["__options__"] = Options(**okw)
+        for f in d["fields"]:
+            att = f["att"]
+            role = f.get("role", "plain")
+            if role == "prop":
+                kind, deps = f["expr"]
+                if kind == "sum":
+                    def fget(self, _deps=tuple(deps)):
+                        return sum(getattr(self, a) for a in _deps)
+                    fget.__annotations__ = {"return": int}
+                else:
+                    def fget(self, _deps=tuple(deps)):
+                        return "".join(getattr(self, a) for a in _deps)
+                    fget.__annotations__ = {"return": str}
+                fget.__name__ = att
+                fkw = {"dependencies": list(deps)}
+                if f.get("alias"):
+                    fkw["alias"] = f["alias"]
+                ns[att] = property(Field(**fkw)(fget))
+                continue
+            ns["__annotations__"][att] = self.ty(f["ty"], self_id=d["id"])
+            fkw = {}
+            if f.get("alias"):
+                fkw["alias"] = f["alias"]
+            if f.get("alias_from"):
+                fkw["alias_from"] = list(f["alias_from"])
+            if f.get("ci") is not None:
+                fkw["case_insensitive"] = f["ci"]
+            if f.get("mode"):
+                fkw["mode"] = f["mode"]
+            if role == "nooutput":
+                fkw["no_output"] = True
+            if role == "noinput":
+                fkw["no_input"] = True
+            if role == "optional":
+                fkw["required"] = False
+            if f.get("default") is not None:
+                dv = f["default"]
+                if dv == {"list": []}:
+                    fkw["default_factory"] = list
+                else:
+                    fkw["default"] = self.val(f["ty"], dv)
+            if fkw:
+                ns[att] = Field(**fkw)
+        cls = type(cname, (Schema,), ns)
+        setattr(_sys.modules[__name__], cname, cls)      # forward references resolve through the module globals
+        self.cache[k] = cls
+        return cls
+
+    def ty(self, t, self_id=None):
         from typing import Dict, List, Optional, Set, Tuple
         from enum import Enum  # noqa
         if isinstance(t, str):
@@ -156,24 +361,28 @@ class World:
         if tag == "enum":
             return self.enum(e)
         if tag == "list":
-            return List[self.ty(e)]
+            return List[self.ty(e, self_id)]
         if tag == "set":
-            return Set[self.ty(e)]
+            return Set[self.ty(e, self_id)]
         if tag == "tuple":
-            return Tuple[tuple(self.ty(x) for x in e)] if e else Tuple[()]
+            return Tuple[tuple(self.ty(x, self_id) for x in e)] if e else Tuple[()]
         if tag == "tuplevar":
-            return Tuple[self.ty(e), ...]
+            return Tuple[self.ty(e, self_id), ...]
         if tag == "dict":
-            return Dict[{"str": str, "int": int}[e[0]], self.ty(e[1])]
+            return Dict[{"str": str, "int": int}[e[0]], self.ty(e[1], self_id)]
+        if tag == "cut":
+            return self.names[e] if e == self_id else self.cache["rich:" + e]
         if tag == "data":
+            if isinstance(e, dict) and e["id"] == self_id:
+                return self.names[e["id"]]           # the class itself: a forward reference by name
             return self.data(e)
         if tag == "optional":
-            return Optional[self.ty(e)]
+            return Optional[self.ty(e, self_id)]
         raise ValueError(tag)
 
     def val(self, t, v):
         """descriptor -> Python value of declared type t"""
-        (tag, e), = v.items()
+        (tag, e), = [(k, x) for k, x in v.items() if k != "hidden"]
         if tag == "none":
             return None
         if isinstance(t, dict) and "optional" in t:
@@ -214,7 +423,17 @@ class World:
             return {(int(k["int"]) if "int" in k else uncps(k["str"])): self.val(t["dict"][1], x) for k, x in e}
         if tag == "data":
             cls = self.data(t["data"])
-            return cls(**{uncps(n): self.val(ft, x) for (n, ft), (_, x) in zip(t["data"], e)})
+            vs = {json.dumps(cps(fv["name"])): fv for fv in views(t)}
+            kw = {}
+            for n, x in e:
+                fv = vs[json.dumps(n)]
+                if fv["role"] in ("prop", "noinput"):
+                    continue                       # computed / defaulted by the class
+                kw[fv["att"]] = self.val(fv["ty"], x)
+            for a, x in (v.get("hidden") or []):   # values of no_output fields (attributes only)
+                fv = next(f for f in vs.values() if f["att"] == a)
+                kw[a] = self.val(fv["ty"], x)
+            return cls(**kw)
         raise ValueError(tag)
 
     def desc(self, t, x):
@@ -290,15 +509,20 @@ class World:
             cls = self.data(e)
             if type(x) is not cls:
                 raise TypeError(f"{type(x).__name__} for data class")
-            if set(x.keys()) != {uncps(n) for n, _ in e}:
+            vs = views(t)
+            if not set(x.keys()) <= {fv["name"] for fv in vs}:
                 raise TypeError("data class keys")
-            return {"data": [[n, self.desc(ft, x[uncps(n)])] for n, ft in e]}
+            if not is_rich(t) and set(x.keys()) != {fv["name"] for fv in vs}:
+                raise TypeError("data class keys")
+            return {"data": [[cps(fv["name"]), self.desc(fv["ty"], x[fv["name"]])] for fv in vs if fv["name"] in x]}
+        if tag == "cut":
+            raise TypeError("deeper than the unrolled declaration")
         raise ValueError(tag)
 
 
 def canon_val(v):
     """sort sets and dicts of a value descriptor (cases are generated canonical; this is for model output)"""
-    (tag, e), = v.items()
+    (tag, e), = [(k, x) for k, x in v.items() if k != "hidden"]
     if tag in ("list", "tuple"):
         return {tag: [canon_val(x) for x in e]}
     if tag == "set":
@@ -458,7 +682,7 @@ def canon_tree(t, tr):
             if tag == "optional":
                 return canon_tree(e, tr)
             if tag == "data":
-                sub = {json.dumps(n): ft for n, ft in e}
+                sub = field_types(t)
             elif tag == "dict":
                 sub = None
                 vt = e[1]
@@ -496,6 +720,32 @@ def _one(w, ft, fv, mode):
     return None if back == inst else "equal"
 
 
+def apply_ops(w, t, inst, ops):
+    """mutations through the public API: attribute / item assignment, update(), |="""
+    by_att = {fv["att"]: fv for fv in views(t)}
+
+    def conv(pairs):
+        return {k: w.val(by_att[a]["ty"], x) for a, k, x in pairs}
+
+    for op in ops:
+        kind, pairs = op[0], op[1]           # pairs: [attname, key to use (attribute name or output name), value]
+        if kind == "setattr":
+            a, _, x = pairs[0]
+            setattr(inst, a, w.val(by_att[a]["ty"], x))
+        elif kind == "setitem":
+            a, k, x = pairs[0]
+            inst[k] = w.val(by_att[a]["ty"], x)
+        elif kind == "update":
+            inst.update(conv(pairs))
+        elif kind == "update_kw":
+            inst.update(**{a: w.val(by_att[a]["ty"], x) for a, _, x in pairs})
+        elif kind == "ior":
+            inst |= conv(pairs)
+        else:
+            raise ValueError(kind)
+    return inst
+
+
 def impl(case):
     import utype  # noqa
     from utype.utils import exceptions as exc
@@ -503,13 +753,23 @@ def impl(case):
     w = World()
     t = case["ty"]
     out = {}
+    want = canon_val(case["val"])
     try:
-        inst = w.val(t, case["val"])
-        if w.desc(t, inst) != case["val"]:
-            return {"init": "altered"}
+        inst = w.val(t, case.get("init") or case["val"])
+        if case.get("ops"):
+            inst = apply_ops(w, t, inst, case["ops"])
+        state = w.desc(t, inst)
     except Exception as e:  # the declaration or the instance is not constructible: not a case of this property
-        return {"init": "error:" + type(e).__name__}
+        return {"init": "error:" + type(e).__name__ + ":" + str(e)[:80]}
     out["init"] = "ok"
+    if state != want:
+        # the public API left the instance in another state than the operations describe
+        out["state"] = state
+    cls = w.data(t["data"])
+    if is_rich(t):
+        pr = cls.__parser__
+        out["decl"] = {"keys": {f.name: list(f.all_aliases) for f in pr.fields.values()},
+                       "dfs": bool(pr.data_first_search)}
     try:
         if case.get("mode") == "serializer":
             raw = JSONSerializer().dumps(inst)
@@ -525,12 +785,12 @@ def impl(case):
         out["tree"] = canon_tree(t, tree_of_text(text))
     except Exception as e:
         out["tree"] = "unreadable:" + type(e).__name__
-    cls = w.data(t["data"])
 
     def blame():
-        # which fields fail on their own, and in which clause (for the classification of a violation)
-        out["bad_fields"] = [[n, why] for (n, ft), (_, fv) in zip(t["data"], case["val"]["data"])
-                             for why in [_one(w, ft, fv, case.get("mode"))] if why]
+        # which items fail on their own in a plain one-field class, and in which clause (classification of a violation)
+        ft = field_types(t)
+        out["bad_fields"] = [[n, why] for n, fv in state["data"]
+                             for why in [_one(w, ft[json.dumps(n)], fv, case.get("mode"))] if why]
 
     if not out["std"]:
         blame()
@@ -571,10 +831,12 @@ def valid_utf8(b: bytes) -> bool:
         return False
 
 
-def in_domain(t, v) -> bool:
-    (tag, e), = v.items()
+def in_domain(t, v, depth=0) -> bool:
+    """the stated domain: values in the JSON-faithful domain; nested instances within their class's max_depth
+    (an instance beyond the limit is not an instance the class accepts)"""
+    (tag, e), = [(k, x) for k, x in v.items() if k != "hidden"]
     if isinstance(t, dict) and "optional" in t:
-        return tag == "none" or in_domain(t["optional"], v)
+        return tag == "none" or in_domain(t["optional"], v, depth)
     if t == "float":
         return e[0] != "nan"
     if t == "str":
@@ -598,20 +860,24 @@ def in_domain(t, v) -> bool:
     if ttag == "enum":
         return True
     if ttag in ("list", "set", "tuplevar"):
-        return all(in_domain(te, x) for x in e)
+        return all(in_domain(te, x, depth) for x in e)
     if ttag == "tuple":
-        return all(in_domain(tt, x) for tt, x in zip(te, e))
+        return all(in_domain(tt, x, depth) for tt, x in zip(te, e))
     if ttag == "dict":
         if te[0] == "str" and any(0xD800 <= c <= 0xDFFF for k, _ in e for c in k["str"]):
             return False
-        return all(in_domain(te[1], x) for _, x in e)
+        return all(in_domain(te[1], x, depth) for _, x in e)
     if ttag == "data":
-        return all(in_domain(ft, x) for (_, ft), (_, x) in zip(te, e))
+        md = class_opts(t)["maxDepth"]
+        if md and depth + 1 > md:
+            return False
+        ft = field_types(t)
+        return all(in_domain(ft[json.dumps(n)], x, depth + 1) for n, x in e)
     return False
 
 
 def has_inf(v) -> bool:
-    (tag, e), = v.items()
+    (tag, e), = [(k, x) for k, x in v.items() if k != "hidden"]
     if tag == "float":
         return e[0] == "inf"
     if tag in ("list", "set", "tuple"):
@@ -637,7 +903,7 @@ def set_of_containers(t) -> bool:
     if tag == "dict":
         return set_of_containers(e[1])
     if tag == "data":
-        return any(set_of_containers(ft) for _, ft in e)
+        return any(set_of_containers(fv["ty"]) for fv in views(t))
     return False
 
 
@@ -654,7 +920,7 @@ def has_optional(t) -> bool:
     if tag == "dict":
         return has_optional(e[1])
     if tag == "data":
-        return any(has_optional(ft) for _, ft in e)
+        return any(has_optional(fv["ty"]) for fv in views(t))
     return False
 
 
@@ -759,6 +1025,8 @@ def gen_type(rng, depth, allow_optional=True):
         return {"tuple": [gen_type(rng, depth - 1) for _ in range(rng.randint(0, 3))]}
     if k == "dict":
         return {"dict": [rng.choice(["str", "str", "int"]), gen_type(rng, depth - 1)]}
+    if rng.random() < 0.4:
+        return unroll(gen_proto(rng, 0), 1)
     return gen_data(rng, depth - 1, rng.randint(1, 3))
 
 
@@ -926,6 +1194,8 @@ def gen_value(rng, t):
             items[_key(k)] = [k, gen_value(rng, e[1])]
         return {"dict": sorted(items.values(), key=lambda kv: _key(kv[0]))}
     if tag == "data":
+        if is_rich(t):
+            return gen_rich_value(rng, t, 1)
         return {"data": [[n, gen_value(rng, ft)] for n, ft in e]}
     raise ValueError(tag)
 
@@ -952,6 +1222,234 @@ def py_eq_key(t, x):
     if tag == "tuple":
         return ("tuple", tuple(py_eq_key(None, y) for y in e))
     return (tag, _key(e))
+
+
+
+# ---- the class side: aliases, case-insensitivity, options, kinds of fields, self-reference, mutation ------------
+
+SNAKE_ATTS = ["created_at", "user_name", "request_id", "total_amount", "token", "seen_at", "retry_after", "price",
+              "quantity", "sku", "x1", "is_active", "html_url", "a", "b_c_d", "value", "note", "count_2"]
+_CID = [0]
+
+
+def gen_alias(rng, att):
+    # (a name that differs from the attribute only in letter case is refused by utype: "aliases conflict with fields")
+    c = [att.replace("_", "-") + "-", "X-" + pascal(att), camel(att) + "Value", att + "ID", pascal(att) + "Amount"]
+    if "_" in att:
+        c += [camel(att), pascal(att)]
+    return rng.choice(c)
+
+
+def gen_proto(rng, depth):
+    """a rich class declaration; recursive fields have the type {"self": None} inside Optional / List"""
+    _CID[0] += 1
+    cid = f"C{_CID[0]}"
+    recursive = depth >= 1 and rng.random() < 0.3
+    opts = {"ci": rng.random() < 0.15, "gen": rng.choice([None, None, None, "camel", "camel", "pascal"]),
+            "max_depth": None, "dfs": rng.choice([None, None, None, True, False]), "mode": rng.choice([None] * 8 + ["r", "w", "a"])}
+    if recursive:
+        opts["max_depth"] = rng.choice([None, 2, 3, 3, 4, 4])
+    n = rng.randint(1, 4)
+    atts = rng.sample(SNAKE_ATTS, n)
+    if opts["gen"] == "pascal" and (recursive or any("_" not in a for a in atts)):
+        opts["gen"] = "camel"          # Pascal case of a one-word attribute differs from it only in letter case: refused
+    fields = []
+    # every third class is built around an output property: 2-3 required int (or str) fields it is computed from
+    material = rng.choice(["int", "str"]) if rng.random() < 0.35 else None
+    nmat = rng.randint(2, 3) if material else 0
+    if material and len(atts) < nmat:
+        atts = rng.sample(SNAKE_ATTS, nmat)
+    for idx, att in enumerate(atts):
+        f = {"att": att, "alias": None, "alias_from": [], "ci": rng.choice([None] * 7 + [True, True, False]), "role": "plain",
+             "default": None, "mode": None}
+        if idx < nmat:
+            if rng.random() < 0.3:
+                f["alias"] = gen_alias(rng, att)
+            f["ty"] = material
+            fields.append(f)
+            continue
+        if rng.random() < 0.3:
+            f["alias"] = gen_alias(rng, att)
+        if rng.random() < 0.2:
+            f["alias_from"] = rng.sample(["x-" + att.replace("_", "-"), att.upper() + "_", pascal(att) + "In", att + "2"], rng.randint(1, 2))
+        r = rng.random()
+        ty = gen_type(rng, depth - 1)
+        if r < 0.5:
+            pass
+        elif r < 0.62:
+            # a default of the field's type
+            k = rng.choice(["int", "str", "bool", "opt", "list"])
+            ty, dv = {"int": ("int", {"int": str(rng.choice([0, 1, -3]))}), "str": ("str", {"str": cps(rng.choice(["", "n/a"]))}),
+                      "bool": ("bool", {"bool": False}), "opt": ({"optional": ty if ty != "none" and not (isinstance(ty, dict) and "optional" in ty) else "int"}, {"none": None}),
+                      "list": ({"list": ty}, {"list": []})}[k]
+            f.update(role="default", default=dv)
+        elif r < 0.72:
+            f["role"] = "optional"
+        elif r < 0.8:
+            ty = rng.choice(["int", "str"])
+            f.update(role="nooutput", default={"int": "5"} if ty == "int" else {"str": cps("secret")})
+        elif r < 0.86:
+            ty = rng.choice(["int", "str"])
+            f.update(role="noinput", default={"int": "3"} if ty == "int" else {"str": cps("fixed")})
+        elif r < 0.93:
+            ty = rng.choice(["int", "str", {"optional": "date"}])
+            f.update(role="default", mode=rng.choice(["r", "w", "a", "ra", "rw", "wa"]),
+                     default={"int": "0"} if ty == "int" else {"str": cps("m")} if ty == "str" else {"none": None})
+        else:
+            ty = rng.choice(["int", "str"])      # material for an output property
+        f["ty"] = ty
+        fields.append(f)
+    # an output property over the required int / str fields declared before it
+    for kind, tyname in (("sum", "int"), ("concat", "str")):
+        deps = [f["att"] for f in fields if f["role"] == "plain" and f["ty"] == tyname and not f["mode"]]
+        if deps and (rng.random() < 0.5 or material == tyname):
+            pick = rng.sample(deps, min(len(deps), rng.randint(2, 3) if material == tyname else rng.randint(1, 2)))
+            fields.append({"att": "total" if kind == "sum" else "label", "alias": rng.choice([None, None, "grandTotal" if kind == "sum" else "Label"]),
+                           "alias_from": [], "ci": None, "role": "prop", "default": None, "mode": None, "expr": [kind, pick], "ty": tyname})
+    if recursive:
+        k = rng.choice(["opt", "list", "both"])
+        if k in ("opt", "both"):
+            fields.append({"att": "in_reply_to", "alias": None, "alias_from": [], "ci": None, "role": "default", "default": {"none": None},
+                           "mode": None, "rec": "opt", "ty": {"optional": {"self": None}}})
+        if k in ("list", "both"):
+            fields.append({"att": "replies", "alias": None, "alias_from": [], "ci": None, "role": "default", "default": {"list": []},
+                           "mode": None, "rec": "list", "ty": {"list": {"self": None}}})
+    return {"id": cid, "opts": opts, "fields": fields}
+
+
+def unroll(proto, k):
+    """the declaration unrolled k levels; below that the class itself is {"cut": id}"""
+    def sub(t):
+        if isinstance(t, str):
+            return t
+        (tag, e), = t.items()
+        if tag == "self":
+            return {"data": unroll(proto, k - 1)["data"]} if k > 1 else {"cut": proto["id"]}
+        if tag in ("optional", "list"):
+            return {tag: sub(e)}
+        return t
+    return {"data": {"id": proto["id"], "opts": proto["opts"], "fields": [dict(f, ty=sub(f["ty"])) for f in proto["fields"]]}}
+
+
+def is_recursive(proto):
+    return any(f.get("rec") for f in proto["fields"])
+
+
+def gen_instance(rng, t, levels):
+    """items of an instance of the (unrolled) rich class t, by attribute: {att: value or None when absent}; hidden values"""
+    vals, hidden = {}, []
+    for fv in views(t):
+        f, att, role = fv["raw"], fv["att"], fv["role"]
+        ty = fv["ty"]
+        rec = f.get("rec")
+        if role == "prop":
+            continue
+        if role == "noinput":
+            vals[att] = f["default"]
+            continue
+        if role == "nooutput":
+            if rng.random() < 0.5 and not (t["data"]["opts"].get("mode") and f.get("mode")):
+                hidden.append([att, gen_value(rng, ty)])
+            continue
+        if rec:
+            inner = ty.get("optional") or ty.get("list")
+            deeper = levels > 1 and "data" in inner
+            if rec == "opt":
+                vals[att] = gen_rich_value(rng, inner, levels - 1) if deeper and rng.random() < 0.7 else {"none": None}
+            else:
+                vals[att] = {"list": [gen_rich_value(rng, inner, levels - 1) for _ in range(rng.choice([0, 1, 1, 2]))] if deeper else []}
+            continue
+        if role == "optional" and rng.random() < 0.5:
+            vals[att] = None
+            continue
+        if role == "default" and rng.random() < 0.3:
+            vals[att] = f["default"]
+            continue
+        vals[att] = gen_value(rng, ty)
+    return vals, hidden
+
+
+def state_items(t, vals):
+    """the items of the instance (output names, declaration order) for the field values `vals` by attribute"""
+    items = []
+    for fv in views(t):
+        att = fv["att"]
+        if fv["role"] == "prop":
+            x = eval_expr(fv["raw"]["expr"], vals)
+            if x is not None:
+                items.append([cps(fv["name"]), x])
+        elif fv["emit"] and vals.get(att) is not None:
+            items.append([cps(fv["name"]), vals[att]])
+    return items
+
+
+def gen_rich_value(rng, t, levels):
+    vals, hidden = gen_instance(rng, t, levels)
+    v = {"data": state_items(t, vals)}
+    if hidden:
+        v["hidden"] = hidden
+    return v
+
+
+def gen_ops(rng, t, vals):
+    """1-3 mutations of input fields through the public API, and the field values they lead to"""
+    mutable = [fv for fv in views(t) if fv["role"] in ("plain", "default", "optional") and fv["emit"] and not fv["raw"].get("rec")]
+    if not mutable:
+        return [], vals
+    vals = dict(vals)
+    ops = []
+    props = [fv for fv in views(t) if fv["role"] == "prop"]
+    for _ in range(rng.randint(1, 3)):
+        kind = rng.choice(["setattr", "setitem", "update", "update_kw", "ior"])
+        k = 1 if kind in ("setattr", "setitem") else rng.randint(1, min(3, len(mutable)))
+        chosen = rng.sample(mutable, k)
+        if props and k > 1 and rng.random() < 0.7:
+            # all the dependencies of a property in one call
+            deps = [fv for fv in mutable if fv["att"] in props[0]["raw"]["expr"][1]]
+            if len(deps) > 1:
+                chosen = deps + [fv for fv in chosen if fv not in deps][:1]
+        pairs = []
+        for fv in chosen:
+            x = gen_value(rng, fv["ty"])
+            pairs.append([fv["att"], rng.choice([fv["att"], fv["name"]]), x])
+            vals[fv["att"]] = x
+        ops.append([kind, pairs])
+    return ops, vals
+
+
+def gen_rich_case(rng, depth=2):
+    proto = gen_proto(rng, depth)
+    md = proto["opts"]["max_depth"]
+    levels = 1
+    if is_recursive(proto):
+        levels = rng.choice([1, 2, 3, 3, 4] if not md else [1, 2, md - 1, md, md, md + (1 if rng.random() < 0.1 else 0)])
+        levels = max(1, levels)
+    t = unroll(proto, levels + 1)
+    vals, hidden = gen_instance(rng, t, levels)
+    case = {"ty": t, "mode": rng.choice(["encoder", "encoder", "serializer"]), "cfg": FIXED}
+    init = {"data": state_items(t, vals)}
+    if hidden:
+        init["hidden"] = hidden
+    if rng.random() < 0.35:
+        ops, vals2 = gen_ops(rng, t, vals)
+        if ops:
+            case["init"] = init
+            case["ops"] = ops
+            case["val"] = {"data": state_items(t, vals2)}
+            return case
+    case["val"] = init
+    return case
+
+
+def strip_hidden(v):
+    (tag, e), = [(k, x) for k, x in v.items() if k != "hidden"]
+    if tag in ("list", "set", "tuple"):
+        return {tag: [strip_hidden(x) for x in e]}
+    if tag == "dict":
+        return {"dict": [[k, strip_hidden(x)] for k, x in e]}
+    if tag == "data":
+        return {"data": [[n, strip_hidden(x)] for n, x in e]}
+    return {tag: e}
 
 
 def gen_case(rng, depth=2):
@@ -1101,7 +1599,7 @@ def law_audit(seed: int, n: int) -> list[str]:
 # ----------------------------------------------------------------------------------------------
 
 def leaf_classes(t, v, out):
-    (tag, e), = v.items()
+    (tag, e), = [(k, x) for k, x in v.items() if k != "hidden"]
     if tag == "none":
         out.add("none")
     elif tag == "bool":
@@ -1160,8 +1658,9 @@ def leaf_classes(t, v, out):
     elif tag == "data":
         tt = t.get("optional", t) if "optional" in t else t
         out.add("data")
-        for (_, ft), (_, x) in zip(tt["data"], e):
-            leaf_classes(ft, x, out)
+        ftys = field_types(tt)
+        for n, x in e:
+            leaf_classes(ftys[json.dumps(n)], x, out)
 
 
 def shape(t) -> str:
@@ -1176,6 +1675,14 @@ def shape(t) -> str:
         return "tuple[" + ",".join(shape(x) for x in e) + "]"
     if tag == "dict":
         return f"dict[{e[0]},{shape(e[1])}]"
+    if tag == "cut":
+        return "self"
+    if is_rich(t):
+        o = e.get("opts", {})
+        flags = [k for k in ("ci", "gen", "max_depth", "mode") if o.get(k)] + (["dfs=%s" % o["dfs"]] if o.get("dfs") is not None else [])
+        return "cls{" + ",".join(
+            (fv["role"] + ("*" if fv["ci"] else "") + ("@" if fv["name"] != fv["att"] else "") + ("+" if len(fv["keys"]) > 1 + (fv["name"] != fv["att"]) else "")
+             + ":" + shape(fv["ty"])) for fv in views(t)) + "}[" + ",".join(flags) + "]"
     return "data{" + ",".join(shape(ft) for _, ft in e) + "}"
 
 
@@ -1192,7 +1699,7 @@ def trivial(t) -> bool:
     if tag == "dict":
         return e[0] == "str" and trivial(e[1])
     if tag == "data":
-        return all(trivial(ft) for _, ft in e)
+        return not is_rich(t) and all(trivial(ft) for _, ft in e)
     return False
 
 
@@ -1251,19 +1758,25 @@ class C14(Check):
     case_timeout = 20.0
     budget = {"quick": 8000, "thorough": 150000}
     search_budget = {"quick": 3000, "thorough": 20000}
-    rule = ("seeded data-class declarations (1-3 plain required fields, field types over int float str bool None bytes Decimal date "
-            "datetime time timedelta UUID Enum (plain / int / str mixin) List Set Tuple[...] Tuple[T, ...] Dict[str|int, T] nested "
-            "Schema, depth <= 2 quick / 3 thorough, Optional[T]) x boundary-rich instances (negative / positive / "
+    rule = ("seeded data-class declarations x boundary-rich instances x encoder entry point, in three equal streams: (1) one field "
+            "of a random type; (2) 1-3 plain required fields; (3) the class side - Field(alias) / alias_generator camel|pascal / "
+            "alias_from, per-field and class-wide case_insensitive, data_first_search None|True|False, Options(mode) with per-field mode, "
+            "defaults / default_factory, required=False, no_output, no_input, output @property with 1-3 declared dependencies, max_depth "
+            "2-4 with Optional['Self'] / List['Self'] chains up to (rarely beyond) the limit; 35 % of those instances mutated through "
+            "attribute / item assignment, update({}), update(**kw), |= (1-3 operations) before encoding.  Field types over int float str "
+            "bool None bytes Decimal date datetime time timedelta UUID Enum (plain / int / str mixin) List Set Tuple[...] Tuple[T, ...] "
+            "Dict[str|int, T] Optional[T] nested classes (plain or rich), depth <= 2 quick / 3 thorough; values: negative / positive / "
             "second- and microsecond-granular UTC offsets, negative and microsecond durations, timedelta.min/max, Decimals with 1-15 digits "
-            "and exponents -400..400 incl. the subnormal edge and 2^53, huge ints, -0.0, 5e-324, escapes / astral text, empty containers), "
-            "encoded by json.dumps(cls=JSONEncoder) or JSONSerializer; thorough adds a deterministic grid of offsets x clocks, durations and "
-            "Decimal coefficient x exponent pairs.  non-trivial = the declaration has a field type JSON does not represent natively (an "
-            "encoder and a converter run); distinct by (type shape, set of leaf value classes)")
+            "and exponents -400..400 incl. the subnormal edge and 2^53, huge ints, -0.0, 5e-324, escapes / astral text, empty containers; "
+            "thorough adds a deterministic grid of offsets x clocks, durations and Decimal coefficient x exponent pairs.  non-trivial = the "
+            "declaration has a field type JSON does not represent natively or is a rich class; distinct by (declaration shape incl. field "
+            "kinds / alias / case flags / options, set of leaf value classes)")
     assumptions = [
         "PrimLaws (CPython's strptime / time.fromisoformat / re / timedelta(float) / float(Decimal) / repr(float) / Decimal(str) / UUID / UTF-8 / json "
         "on the encoders' output) are hypotheses of the theorems: audited against the running interpreter on generated values every run, "
         "and satisfied by the concrete Lean instance P0 (C14_primlaws_P0)",
-        "data classes = Schema subclasses with plain required fields; str = Unicode scalar values (no lone surrogates); |int| < 10^4000 "
+        "data classes = Schema subclasses; a required no_output field, an assigned no_input field, a property with undeclared "
+        "dependencies, pop/del/setdefault and untyped additions are outside (not rebuildable from output by design / C07); str = Unicode scalar values (no lone surrogates); |int| < 10^4000 "
         "(CPython's int/str digit limit); dict keys str or int; time values naive or aware at millisecond precision; frozenset / deque / "
         "attribute-based DataClass are outside (no encoder registered)",
     ]
@@ -1281,12 +1794,16 @@ class C14(Check):
             if i % 3 == 0:
                 t = gen_type(rng, depth - 1)
                 out.append(one_field(t, gen_value(rng, t), rng.choice(["encoder", "serializer"])))
-            else:
+            elif i % 3 == 1:
                 out.append(gen_case(rng, depth))
+            else:
+                # the class side: aliases, case-insensitivity, options, kinds of fields, self-reference, mutation
+                out.append(gen_rich_case(rng, depth))
         return out
 
     def model_line(self, case):
-        return {"cfg": case.get("cfg", FIXED), "ty": case["ty"], "val": case["val"], "prims": prim_table(case["ty"], case["val"])}
+        val = strip_hidden(case["val"])
+        return {"cfg": case.get("cfg", FIXED), "ty": model_type(case["ty"]), "val": val, "prims": prim_table(case["ty"], val)}
 
     # -- comparison model vs implementation ------------------------------------------------------
     def compare(self, case, io, mo):
@@ -1301,8 +1818,19 @@ class C14(Check):
             return f"driver: {str(mo)[:200]}"
         if io.get("init") != "ok":
             return None          # not constructible: no instance to talk about
-        if canon_val(mo["echo"]) != case["val"]:
+        if canon_val(mo["echo"]) != canon_val(case["val"]):
             return "driver decoded a different instance"
+        if "state" in io:
+            return "the instance is not in the state the operations describe (attribute / item assignment, update, |=)"
+        if "decl" in io:
+            # the harness's reading of the declaration (output names, accepted keys, lookup strategy) against the parser's
+            vs = views(case["ty"])
+            want = {fv["name"]: [k.lower() for k in fv["keys"]] if fv["ci"] else fv["keys"] for fv in vs}
+            got = {n: ks for n, ks in io["decl"]["keys"].items()}
+            if got != want:
+                return f"declaration read differently: parser {got} harness {want}"
+            if io["decl"]["dfs"] != class_opts(case["ty"])["dataFirst"]:
+                return "lookup strategy read differently"
         dom = in_domain(case["ty"], case["val"])
         if bool(mo["inDomain"]) != dom:
             return f"domain predicates differ: lean inDomain={mo['inDomain']} python in_domain={dom}"
@@ -1336,7 +1864,8 @@ class C14(Check):
     def spec(self, case, io, mo):
         if io.get("init") != "ok":
             return None
-        if not in_domain(case["ty"], case["val"]):
+        # the instance as it is (after any mutation through the public API)
+        if not in_domain(case["ty"], io.get("state") or case["val"]):
             return None
         if io.get("enc") != "ok":
             return f"encoding an in-domain instance raised {io.get('enc')}"
@@ -1351,7 +1880,9 @@ class C14(Check):
     def classify(self, case, io, why):
         # a violation falls under a known finding only if every field that fails on its own fails in that
         # finding's clause and is of that finding's kind
-        fields = {json.dumps(n): (ft, fv) for (n, ft), (_, fv) in zip(case["ty"]["data"], case["val"]["data"])}
+        ftys = field_types(case["ty"])
+        state = io.get("state") or case["val"]
+        fields = {json.dumps(n): (ftys[json.dumps(n)], fv) for n, fv in state["data"]}
         bad = [(fields[json.dumps(n)], w) for n, w in io.get("bad_fields", [])]
         if not bad:
             return None
@@ -1367,11 +1898,18 @@ class C14(Check):
         out = []
         t, v = case["ty"], case["val"]
         # each field alone, with its value and with fresh values of the same type
-        for (n, ft), (_, fv) in zip(t["data"], v["data"]):
+        ftys = field_types(t)
+        for n, fv in v["data"]:
+            ft = ftys[json.dumps(n)]
+            if json.dumps(ft).find('"cut"') >= 0:
+                continue
             for mode in ("encoder", "serializer"):
                 out.append(one_field(ft, fv, mode))
             for _ in range(12):
                 out.append(one_field(ft, gen_value(rng, ft), case.get("mode", "encoder")))
+        if is_rich(t):
+            out.append({k: x for k, x in case.items() if k not in ("ops", "init")} if "ops" not in case else
+                       dict({k: x for k, x in case.items() if k not in ("ops", "init", "val")}, val=case["init"]))
         return out
 
     def key(self, case, io):
